@@ -274,7 +274,7 @@ class MergeableConstraints(object):
     def __init__(self, initial_constraint=None, statement_serializer_factory=None, namespaces_dict=None):
         self._constraints = []
         self._bnode_constraint = None
-        self._shape_constraints = None
+        self._shape_constraints = []
         self._iri_constraint = None
         self._dominant_constraint = None
         self._disable_or = True
@@ -306,7 +306,7 @@ class MergeableConstraints(object):
 
     @property
     def has_shape_constraints(self):
-        return self._shape_constraints is not None
+        return len(self._shape_constraints) > 0
 
     def get(self, index):
         return self._constraints[index]
